@@ -395,7 +395,13 @@ class AnomalyListener(Listener):
         return (self._convert(orb) - self.value + np.pi) % (2 * np.pi) - np.pi
 
     def check(self, orb):
-        return abs(self._diff(orb)) < 2 and super().check(orb)
+        # a sign change between two wrapped differences further apart than pi is the
+        # jump of the wrap-around at value +/- pi, not a crossing of the value
+        return (
+            self.prev is not None
+            and abs(self._diff(orb) - self._diff(self.prev)) < np.pi
+            and super().check(orb)
+        )
 
     def info(self, orb):
         # breakpoint()
